@@ -227,7 +227,8 @@ Proof.
   pose proof (nth_cs _ _ Hj) as (Tj & Pj & Lj).
   assert (Hdiff : w32 (c_tsn c - r_cum st) = w32 (Z.of_nat j - Z.of_nat k + 1)).
   { rewrite Tj, Hcum, w32_sub_w32. f_equal. lia. }
-  unfold recv_data. rewrite Hdiff.
+  assert (Hg : negb (SctpState_eqb (r_conn st) SctpState_Connected) = false) by (rewrite Hconn; reflexivity).
+  unfold recv_data. rewrite Hg, Hdiff.
   destruct (le_lt_dec k j) as [Hge|Hlt].
   2:{ (* old or duplicate *)
     rewrite dup_behind by lia. exists 0%nat. unfold advances. rewrite Nat.add_0_r. cbn [fst snd].
@@ -507,4 +508,129 @@ Proof.
   assert (m = length ps).
   { eapply all_seen_all_consumed; [exact Hlen|exact HI|]. intros c Hc. apply Hseen, Hall, Hc. }
   subst m. eapply inv_full_queue_empty. exact HI.
+Qed.
+
+(* ------------------------------------------------------------------ any traffic before establishment *)
+(* DATA that arrives before the association is established is dropped: a not-yet-established
+   association stays "quiet" under setup chunks and DATA alike *)
+Definition not_up (st : rstate) : Prop := r_conn st <> SctpState_Connected /\ r_conn st <> SctpState_Closed.
+
+Lemma step_pre_quiet rc st i :
+  quiet rc st -> not_up st -> pre_input i ->
+  quiet rc (fst (step st i)) /\ (forall sid, log_of sid (snd (step st i)) = []) /\
+  r_conn (fst (step st i)) <> SctpState_Closed.
+Proof.
+  intros Hq [Hnc Hncl] Hi. destruct i as [c|t|t hc|valid| |n pairs|sid| |v]; cbn in Hi; try contradiction.
+  - (* DATA: dropped *)
+    unfold step. destruct (SctpState_eqb (r_conn st) SctpState_Closed); [split; [exact Hq|split; [reflexivity|exact Hncl]]|].
+    unfold recv_data.
+    assert (Hg : negb (SctpState_eqb (r_conn st) SctpState_Connected) = true).
+    { destruct (r_conn st); try reflexivity. contradiction. }
+    rewrite Hg. split; [exact Hq|split; [reflexivity|exact Hncl]].
+  - destruct (step_setup_quiet rc st (IInit t) Hq I) as [H1 H2]. split; [exact H1|]. split; [exact H2|].
+    unfold step. destruct (SctpState_eqb _ _); [exact Hncl|]. destruct (connected st); exact Hncl.
+  - destruct (step_setup_quiet rc st (IInitAck t hc) Hq I) as [H1 H2]. split; [exact H1|]. split; [exact H2|].
+    unfold step. destruct (SctpState_eqb _ _); [exact Hncl|]. destruct (connected st); exact Hncl.
+  - destruct (step_setup_quiet rc st (ICookieEcho valid) Hq I) as [H1 H2]. split; [exact H1|]. split; [exact H2|].
+    unfold step. destruct (SctpState_eqb _ _); [exact Hncl|]. destruct valid; [|exact Hncl].
+    unfold establish. destruct (on_established _). cbn. discriminate.
+  - destruct (step_setup_quiet rc st ICookieAck Hq I) as [H1 H2]. split; [exact H1|]. split; [exact H2|].
+    unfold step. destruct (SctpState_eqb _ _); [exact Hncl|].
+    unfold establish. destruct (on_established _). cbn. discriminate.
+Qed.
+
+(* once established the association stays established under setup chunks and DATA *)
+Lemma step_stays_connected st i :
+  r_conn st = SctpState_Connected -> pre_input i -> r_conn (fst (step st i)) = SctpState_Connected.
+Proof.
+  intros Hc Hi. unfold step, connected. rewrite Hc. cbn [SctpState_eqb].
+  destruct i as [c|t|t hc|valid| |n pairs|sid| |v]; cbn in Hi; try contradiction; try exact Hc.
+  - unfold recv_data. destruct (negb _); [exact Hc|]. destruct (data_is_dup _); [exact Hc|].
+    destruct (_ && _).
+    + destruct (proc _ _) as [[a1 e1] ok]. exact Hc.
+    + cbn zeta. destruct (take_run _ _ _) as [b q]. destruct (proc_batch _ _) as [[[a1 e1] n] ok]. exact Hc.
+  - destruct valid; [|exact Hc]. unfold establish. destruct (on_established _). reflexivity.
+  - unfold establish. destruct (on_established _). reflexivity.
+Qed.
+
+Lemma run_stays_connected h : forall st,
+  r_conn st = SctpState_Connected -> Forall pre_input h -> r_conn (fst (run st h)) = SctpState_Connected.
+Proof.
+  induction h as [|i h IH]; intros st Hc Hh; [exact Hc|]. inversion Hh as [|? ? Hi Hh']; subst. cbn [run].
+  pose proof (step_stays_connected st i Hc Hi) as Hs1.
+  destruct (step st i) as [st1 e1]. cbn [fst] in Hs1.
+  specialize (IH st1 Hs1 Hh'). destruct (run st1 h) as [st2 e2]. exact IH.
+Qed.
+
+Lemma run_pre_quiet rc h : forall st,
+  quiet rc st -> not_up st -> Forall pre_input h ->
+  r_conn (fst (run st h)) <> SctpState_Connected ->
+  quiet rc (fst (run st h)) /\ (forall sid, log_of sid (snd (run st h)) = []) /\ not_up (fst (run st h)).
+Proof.
+  induction h as [|i h IH]; intros st Hq Hn Hh Hend; [split; [exact Hq|split; [reflexivity|exact Hn]]|].
+  inversion Hh as [|? ? Hi Hh']; subst. cbn [run] in *.
+  destruct (step_pre_quiet rc st i Hq Hn Hi) as (Hq1 & Hl1 & Hcl1).
+  pose proof (step_stays_connected st i) as Hmono.
+  destruct (step st i) as [st1 e1] eqn:Es. cbn [fst snd] in *.
+  assert (Hn1 : not_up st1).
+  { split; [|exact Hcl1]. intros Hc1.
+    pose proof (run_stays_connected h st1 Hc1 Hh') as Hc2.
+    destruct (run st1 h) as [st2 e2]. cbn [fst] in *. contradiction. }
+  destruct (run st1 h) as [st2 e2] eqn:Er.
+  assert (Hend' : r_conn (fst (run st1 h)) <> SctpState_Connected) by (rewrite Er; exact Hend).
+  destruct (IH st1 Hq1 Hn1 Hh' Hend') as (Hq2 & Hl2 & Hn2). rewrite Er in Hq2, Hl2, Hn2.
+  cbn [fst snd] in *. split; [exact Hq2|]. split; [|exact Hn2].
+  intros sid. rewrite log_of_app, Hl1, Hl2. reflexivity.
+Qed.
+
+(* The whole history, now with ANY traffic before establishment: pre0 (setup chunks and arbitrary
+   DATA, the association not yet established after it), the establishing chunk e (COOKIE-ACK or a
+   valid COOKIE-ECHO), then genuine arrivals and setup chunks. The stream is numbered from the TSN
+   the endpoint holds at establishment. *)
+Theorem recv_refines_any_handshake t0 ps rc pre0 e h :
+  Z.of_nat (length ps) < 2147483648 ->
+  Forall not_dcep ps ->
+  Forall pre_input pre0 ->
+  r_conn (fst (run (init_r 0 rc) pre0)) <> SctpState_Connected ->
+  r_cum (fst (run (init_r 0 rc) pre0)) = w32 (t0 - 1) ->
+  e = ICookieAck \/ e = ICookieEcho true ->
+  Forall (ok_input t0 ps) h ->
+  exists k, (k <= length ps)%nat /\
+            r_cum (fst (run (init_r 0 rc) (pre0 ++ e :: h))) = w32 (t0 - 1 + Z.of_nat k) /\
+            (forall sid, log_of sid (snd (run (init_r 0 rc) (pre0 ++ e :: h))) =
+                         log_of sid (snd (proc_all (mkApp rc []) (firstn k ps)))) /\
+            ((forall c, In c (stamp t0 ps) -> In (IData c) h) -> k = length ps).
+Proof.
+  intros Hlen Hdata Hpre Hnc Hcum He Hok.
+  assert (Hq0 : quiet rc (init_r 0 rc)) by (repeat split; cbn; try reflexivity; apply chans_sim_refl).
+  assert (Hn0 : not_up (init_r 0 rc)) by (split; cbn; discriminate).
+  destruct (run_pre_quiet rc pre0 _ Hq0 Hn0 Hpre Hnc) as ((Hq & Hs & Hc) & Hl & (_ & Hncl)).
+  set (st0 := fst (run (init_r 0 rc) pre0)) in *.
+  (* the establishing step *)
+  assert (Hest : exists pre', step st0 e = establish st0 pre' /\ forall sid, log_of sid pre' = []).
+  { unfold step. destruct (SctpState_eqb (r_conn st0) SctpState_Closed) eqn:Ecl.
+    - exfalso. apply Hncl. destruct (r_conn st0); try discriminate. reflexivity.
+    - destruct He as [->| ->]; eexists; split; try reflexivity; intros sid; reflexivity. }
+  destruct Hest as (pre' & Hstep & Hpre').
+  pose proof (on_established_spec (a_chans (r_app st0))) as [Ho1 Ho2].
+  assert (HI : Inv t0 ps (mkApp rc []) 0 (fst (step st0 e)) /\ forall sid, log_of sid (snd (step st0 e)) = []).
+  { rewrite Hstep. unfold establish. destruct (on_established (a_chans (r_app st0))) as [cs' evs]. cbn [fst snd] in *. split.
+    - constructor; cbn [r_conn r_cum r_rq r_app].
+      + lia.
+      + reflexivity.
+      + rewrite Hcum. f_equal. lia.
+      + rewrite Hq. constructor.
+      + rewrite Hq. reflexivity.
+      + split; cbn [ideal firstn proc_all fst a_chans a_streams mkApp]; [eapply chans_sim_trans; eassumption|exact Hs].
+    - intros sid. rewrite log_of_app, Hpre', Ho2. reflexivity. }
+  destruct HI as [HI Hle].
+  rewrite run_app. fold st0. cbn [run fst snd].
+  destruct (step st0 e) as [st1 e1]. cbn [fst snd] in HI, Hle.
+  destruct (run_inv t0 ps (mkApp rc []) Hlen Hdata h 0%nat st1 HI Hok) as (m & (HI2 & HL & _) & Hseen).
+  destruct (run st1 h) as [st2 e2]. cbn [fst snd] in *.
+  exists m. cbn [Nat.add] in HI2, Hseen. pose proof HI2 as [Hk _ Hcum2 _ _ _].
+  split; [exact Hk|]. split; [exact Hcum2|]. split.
+  - intros sid. rewrite !log_of_app, Hl, Hle, HL. unfold ideal, seg. cbn [firstn skipn proc_all fst List.app]. reflexivity.
+  - intros Hall. eapply all_seen_all_consumed; [exact Hlen|exact HI2|].
+    intros c Hc'. apply Hseen. apply Hall. exact Hc'.
 Qed.
